@@ -5,18 +5,22 @@
 patch="$(readlink -f "$1")"; props="$2"; tier="${3:-quick}"
 here="$(cd "$(dirname "$0")/.." && pwd)"
 . "$here/bin/env.sh"
-scratch="${VERIF_SCRATCH:-/var/tmp}/kvm.$$"
-mkdir -p "$scratch/repo" "$scratch/verif/evidence"
-rsync -a --exclude .git /repo/ "$scratch/repo/"
+# A fixed slot directory per parallel job: the Go build cache keys packages by directory, so a fresh path per
+# run would add ~0.4 GB of cache per run. The slot is emptied by rsync --delete and removed by the caller
+# (tools/selftest.sh, tools/run_seeds.sh) or, for a stand-alone run, right here.
+slot="${KVM_SLOT:-solo$$}"
+scratch="${VERIF_SCRATCH:-/var/tmp}/kvm.slot.$slot"
+rm -rf "$scratch/verif"; mkdir -p "$scratch/repo" "$scratch/verif/evidence"
+rsync -a --delete --exclude .git /repo/ "$scratch/repo/"
 cp "$here/known_findings.json" "$scratch/verif/" 2>/dev/null
-( cd "$scratch/repo" && patch -s -p1 < "$patch" ) || { echo "PATCH-FAILED $patch"; rm -rf "$scratch"; exit 3; }
+( cd "$scratch/repo" && patch -s -p1 < "$patch" ) || { echo "PATCH-FAILED $patch"; [ -z "$KVM_SLOT" ] && rm -rf "$scratch"; exit 3; }
 if [ -n "$BUILD" ]; then
   pkgs=$(grep '^+++ ' "$patch" | sed 's|^+++ [ab]/||; s|/[^/]*$||' | sort -u | sed 's|^|./|')
-  ( cd "$scratch/repo" && go build $pkgs ) || { echo "BUILD-FAILED $patch"; rm -rf "$scratch"; exit 3; }
+  ( cd "$scratch/repo" && go build $pkgs ) || { echo "BUILD-FAILED $patch"; [ -z "$KVM_SLOT" ] && rm -rf "$scratch"; exit 3; }
 fi
 "$here/bin/kaicheck" -repo "$scratch/repo" -verif "$scratch/verif" -p "$props" -tier "$tier" > "$scratch/out.txt" 2>&1
 code=$?
 grep -E "VIOLATION|UNDECIDED|KNOWN-FINDING|^[a-z].*: \[C" "$scratch/out.txt" | sed "s|$scratch/repo/||g" | cut -c1-${WIDTH:-300}
 echo "RESULT $(basename "$patch") props=$props exit=$code"
-rm -rf "$scratch"
+if [ -z "$KVM_SLOT" ]; then rm -rf "$scratch"; else rm -rf "$scratch/verif" "$scratch/out.txt"; fi
 exit $code
